@@ -40,29 +40,31 @@ Proof. exact digest_faithful. Qed.
 Print Assumptions C06_digest_faithful.
 
 (* File outputs.  Content AND executable bit are restored (FileOutput.is_executable is recorded by
-   Write and applied by Load since the repair of C06-F1), from every prior state of the path --
-   absent, parent directory absent, the same file, a modified / truncated file, either exec bit --
-   except one class: a directory sitting at the path (file_restore_possible dest = false, C06-F3:
-   FileOutputHandler.Load does not clear the path; refutation and exactness of the guard below).
-   cas_sound as for directories. *)
-Theorem C06_file_roundtrip_partial :
+   Write and applied by Load since the repair of C06-F1), from EVERY prior state of the path --
+   absent, parent directory absent, the same file, a modified / truncated file, either exec bit, and
+   a directory sitting at the path, whatever it holds (Load removes it before creating the file since
+   the repair of C06-F3; the theorem used to be C06_file_roundtrip_partial with the guard
+   file_restore_possible dest = true).  The one remaining hypothesis is about the store, not about the
+   path: cas_sound as for directories. *)
+Theorem C06_file_roundtrip :
   forall (H : str -> str), (forall x y, H x = H y -> x = y) ->
   forall c x st dest,
     cas_sound H st ->
-    file_restore_possible dest = true ->
     let '(st', m) := file_write H c x st in
     file_load H m st' dest = Done (File c x).
 Proof. exact file_roundtrip. Qed.
-Print Assumptions C06_file_roundtrip_partial.
+Print Assumptions C06_file_roundtrip.
 
-(* the guard is exact: in the excluded class the restore fails (it never restores something else) *)
-Theorem C06_file_restore_impossible :
-  forall (H : str -> str) c x st dest,
-    file_restore_possible dest = false ->
-    let '(st', m) := file_write H c x st in
-    file_load H m st' dest = Error.
-Proof. exact file_restore_impossible. Qed.
-Print Assumptions C06_file_restore_impossible.
+(* what is left of "the restore is impossible" (formerly C06_file_restore_impossible: a directory at
+   the path => Error): for ANY file record, store and prior state, Load fails exactly when the store
+   does not hold the blob and the path does not already hold the recorded content; it never hangs *)
+Theorem C06_file_restore_fails_iff :
+  forall (H : str -> str) m st dest,
+    (file_load H m st dest = Error <->
+     file_in_place H m dest = false /\ cas_get st (d_hash (fm_digest m)) = None) /\
+    file_load H m st dest <> Stuck.
+Proof. exact file_restore_fails_iff. Qed.
+Print Assumptions C06_file_restore_fails_iff.
 
 (* concrete instances (the witness that used to refute the round trip, C06-F1): a cached executable comes
    back executable into an absent path, an absent parent, over a non-executable file with the same and
@@ -86,12 +88,15 @@ Theorem C06_file_roundtrip_parent_absent :
 Proof. exact file_roundtrip_parent_absent. Qed.
 Print Assumptions C06_file_roundtrip_parent_absent.
 
-Theorem C06_file_roundtrip_refuted_directory :
-  exists c x st,
+(* the witness that used to refute the round trip (C06-F3, C06_file_roundtrip_refuted_directory): an empty
+   directory and one holding a file and a sub-directory are replaced by the cached file *)
+Theorem C06_file_roundtrip_directory_replaced :
+  forall c x st, cas_sound Hid st ->
     let '(st', m) := file_write Hid c x st in
-    file_load Hid m st' (DDir []) = Error.
-Proof. exact file_roundtrip_refuted_directory. Qed.
-Print Assumptions C06_file_roundtrip_refuted_directory.
+    file_load Hid m st' (DDir []) = Done (File c x) /\
+    file_load Hid m st' (DDir stale_dir) = Done (File c x).
+Proof. exact file_roundtrip_directory_replaced. Qed.
+Print Assumptions C06_file_roundtrip_directory_replaced.
 
 (* the hypotheses on H / ser_dir / ser_tree / deser_tree are satisfiable (by the encoders the
    extracted model runs with) *)
